@@ -278,6 +278,11 @@ class GuardWalk:
             self.expr(e.value, pc, loops)
             self._bind_target(e.target, e.value, pc, loops)
             return
+        if isinstance(e, ast.Attribute) and isinstance(e.ctx, ast.Load) and \
+                isinstance(e.value, ast.Name) and e.value.id == 'self':
+            # a read of an attribute of the receiver: a property getter may run here
+            self._emit('attrload', e, pc, loops)
+            return
         for ch in ast.iter_child_nodes(e):
             if isinstance(ch, ast.expr):
                 self.expr(ch, pc, loops)
